@@ -88,6 +88,13 @@ CLAIMS = {
             "overlay, name matches, Access permitted), C18_wallet_accounts, C18_created_account_listed; correspondence of the real lister "
             "(service and gRPC handler) as a multiset, before and after dynamic account creation; soundness and completeness also "
             "monitored with the real checker", "5 C18"),
+    "C19": ("Theorems C19_gate (with client certificates required and verified against the configured pool and TLS 1.3 minimum, a request "
+            "reaches any handler only from a caller presenting a certificate that verifies against the configured authority, and the name given "
+            "to permission checks is that certificate's common name), C19_identity_is_verified, C19_authentic_callers_served; every weaker "
+            "crypto/tls client-authentication mode refuted, two of them with a forged identity. PARTIAL by nature: crypto/tls, x509 and gRPC "
+            "are trusted. Correspondence: the full method x credential matrix over real TLS connections to a daemon from testing/daemon.New "
+            "(no TLS, no certificate, self-signed, another authority with a permitted / peer name, valid clients, peer, non-peer, TLS 1.2, "
+            "expired, server-use-only, fresh valid); nothing of value to refused callers; identity probes", "5 C19"),
     "C20": ("Theorems C20_decoder_capacity, C20_no_panic (for every Signer request that came out of the protobuf decoder - any field absent "
             "or of any length, any numbers, batches of any length, any names and keys - and every configuration, store and caller, the "
             "handler path reaches no panicking operation: per-position response arrays, the capacity-bounded Domain[0:4] of the rules layer), "
